@@ -70,7 +70,7 @@ static void run(struct tctx *t) { switch (t->stream) { %(dispatch)s } }
 static void *thr(void *a) { run((struct tctx *) a); return NULL; }
 static void setup(struct tctx *t, int stream, uint32_t bufsz)
 {
-	memset(t, 0, sizeof(*t)); t->stream = stream; t->bufsz = bufsz; t->buf = (uint8_t *) calloc(1, bufsz + 64); /* slack: the known S9 overflow (<= 16 bytes) must not land in another thread's block */
+	memset(t, 0, sizeof(*t)); memset(&t->c, 0xA5, sizeof(t->c)); /* context memory is not zero-filled */ t->stream = stream; t->bufsz = bufsz; t->buf = (uint8_t *) calloc(1, bufsz + 64); /* slack: the known S9 overflow (<= 16 bytes) must not land in another thread's block */
 }
 int main(void)
 {
